@@ -57,8 +57,9 @@ type Interp struct {
 	caseNo  int
 	rules   map[string]*loaded // by op-level resource name
 	order   []string
-	cleared map[string]bool // resources whose rule was cleared (address-less probes are still allowed)
-	script  map[string]bool // scripted RecoveryCheckFunc results, by address
+	cleared map[string]bool      // resources whose rule was cleared (address-less probes are still allowed)
+	script  map[string]bool      // scripted RecoveryCheckFunc results, by address
+	recov   map[string][2]uint32 // per op-level resource: MaxRecoveryAttempts, RecoveryIntervalMs for the rules loaded from now on
 	raw     bool
 }
 
@@ -83,6 +84,7 @@ func (it *Interp) Reset() {
 	it.rules = map[string]*loaded{}
 	it.cleared = map[string]bool{}
 	it.script = map[string]bool{}
+	it.recov = map[string][2]uint32{}
 	it.order = nil
 	it.clk.SetMs(startMs)
 	settle()
@@ -189,6 +191,10 @@ func (it *Interp) load(t []string, perRes bool) string {
 	res := it.rn(name)
 	cbPart := strings.Join(t[2:10], " ")
 	gen := it.caseNo
+	rc, ok := it.recov[name]
+	if !ok {
+		rc = [2]uint32{3, 4000}
+	}
 	r := &outlier.Rule{
 		Rule: &circuitbreaker.Rule{
 			Resource:                     res,
@@ -203,9 +209,9 @@ func (it *Interp) load(t []string, perRes bool) string {
 		},
 		EnableActiveRecovery: t[11] != "0",
 		MaxEjectionPercent:   pe,
-		RecoveryIntervalMs:   4000, // real time: never fires within a case
-		RecycleIntervalS:     0,    // default 10 min real time
-		MaxRecoveryAttempts:  3,
+		RecoveryIntervalMs:   rc[1], // real time (default 4000: never fires within a case)
+		RecycleIntervalS:     0,     // zero value = default 10 min real time
+		MaxRecoveryAttempts:  rc[0],
 		// a retry timer that fires after its case is over reports "recovered" and so ends its chain
 		// within the case the result is scripted by the `check` op (default: still down)
 		RecoveryCheckFunc: func(addr string) bool { return curCase != gen || it.script[addr] },
@@ -379,6 +385,10 @@ func (it *Interp) Step(t []string, op string) string {
 		return it.clear(t[1])
 	case "unload":
 		return it.unload(t[1])
+	case "recovery":
+		// recovery <res> <MaxRecoveryAttempts> <RecoveryIntervalMs>: fields of the rules loaded for <res> from now on
+		it.recov[t[1]] = [2]uint32{uint32(vh.U(t[2])), uint32(vh.U(t[3]))}
+		return ""
 	case "rules":
 		var xs []string
 		for _, r := range outlier.GetRules() {
